@@ -377,6 +377,17 @@ def check_unique(g, mats, m, shape, rows, stratum, lat):
     for a in range(len(ud)):
         for b in range(a + 1, len(ud)):
             if equivalent(mats, ud[a], ud[b]):
+                # explained by the double rounding only if the two rounded orbit keys (as the library computed
+                # them: rows of orb) differ; with equal keys the documented procedure merges the two vectors
+                vbd = vb.data.reshape(-1, 3)
+                ia = next((i for i in range(nb) if np.array_equal(vbd[i], ud[a])), None)
+                ib = next((i for i in range(nb) if np.array_equal(vbd[i], ud[b])), None)
+                if ia is not None and ib is not None:
+                    ka = np.round(np.asarray(orb[ia]), 10) + 0.0
+                    kb = np.round(np.asarray(orb[ib]), 10) + 0.0
+                    dd = np.max(np.abs(ka[:, None, :] - kb[None, :, :]), axis=2)      # the two rounded orbits as SETS
+                    if max(np.max(np.min(dd, axis=1)), np.max(np.min(dd, axis=0))) == 0:
+                        exact_ops += ":equal-keys"
                 fail(f"unique:orbits:two-from-one-orbit:{exact_ops}",
                      f"unique(use_symmetry=True) returns {ud[a].tolist()} and {ud[b].tolist()} which are "
                      f"equivalent under {gname}", rep)
